@@ -6,4 +6,10 @@ import NdcubeModel.Model.Cube
 import NdcubeModel.Lemmas.Index
 import NdcubeModel.Props.C01
 import NdcubeModel.Witness.C01
+import NdcubeModel.Model.Sequence
+import NdcubeModel.Lemmas.Seq
+import NdcubeModel.Props.C11
+import NdcubeModel.Props.C12
+import NdcubeModel.Witness.C11
+import NdcubeModel.Witness.C12
 import NdcubeModel.Driver
